@@ -52,11 +52,14 @@ def octEscape (rest : List Nat) : Nat × List Nat :=
   let ds := (rest.take 3).takeWhile isOct
   (ofDigits 8 ds, rest.drop ds.length)
 
+/-- a character that can be part of a `\N{…}` name: anything but `}` -/
+def nameChar (c : Nat) : Bool := c != 125
+
 /-- `\N{name}`: the name runs to the next `}`; it must be a known character name. -/
 def nameEscape (lookup : List Nat → Option Nat) (rest : List Nat) : Option (Nat × List Nat) :=
   match rest with
   | 123 :: r =>
-    let name := r.takeWhile (· ≠ 125)
+    let name := r.takeWhile nameChar
     match r.drop name.length with
     | 125 :: r' =>
       match lookup name with
@@ -139,12 +142,14 @@ structure Prefix where
   u : Bool
 deriving DecidableEq, Repr
 
-/-- the prefix (any case) as a list of letters → its meaning; `none` = not a string prefix -/
+/-- the prefix (any case) as a list of letters → its meaning; `none` = not a string prefix.
+    The `u` marker (`ast.Constant.kind == 'u'`) is set by the reference only for a prefix spelled
+    with a lower-case `u`; `U'…'` is accepted as a text literal without the marker. -/
 def prefixKind (p : List Nat) : Option Prefix :=
   match p.map lower with
   | [] => some ⟨false, false, false, false⟩
   | [114] => some ⟨false, true, false, false⟩                   -- r
-  | [117] => some ⟨false, false, false, true⟩                   -- u
+  | [117] => some ⟨false, false, false, p == [117]⟩             -- u (marker only for lower case)
   | [102] => some ⟨false, false, true, false⟩                   -- f
   | [98] => some ⟨true, false, false, false⟩                    -- b
   | [102, 114] | [114, 102] => some ⟨false, true, true, false⟩  -- fr rf
@@ -158,6 +163,14 @@ structure Part where
   pre : Prefix
   body : List Nat
 
+/-- the decoded items of all parts, concatenated; `none` if any part is not a valid literal -/
+def concatItems (lookup : List Nat → Option Nat) : List Part → Option (List Nat)
+  | [] => some []
+  | p :: ps =>
+    match decode lookup p.pre.bytes p.pre.raw p.body, concatItems lookup ps with
+    | some a, some b => some (a ++ b)
+    | _, _ => none
+
 /-- The value of adjacent literals (no f-strings): bytes and text cannot be mixed; the values are
     concatenated; the `u` marker is that of the first literal.
     Result: `(isBytes, items, uMarker)`. -/
@@ -166,10 +179,9 @@ def concat (lookup : List Nat → Option Nat) (parts : List Part) : Option (Bool
   | [] => none
   | p0 :: _ =>
     if parts.all (·.pre.bytes) ∨ parts.all (fun p => !p.pre.bytes) then
-      let vals := parts.map (fun p => decode lookup p.pre.bytes p.pre.raw p.body)
-      if vals.all Option.isSome then
-        some (p0.pre.bytes, (vals.map (·.getD [])).flatten, p0.pre.u)
-      else none
+      match concatItems lookup parts with
+      | some items => some (p0.pre.bytes, items, p0.pre.u)
+      | none => none
     else none
 
 /-! ## numbers -/
